@@ -237,9 +237,15 @@ class Ref(object):
     def check_enter(self, fr, enters, exits):
         if not enters:
             return False
+        claimed = set()
         for name in enters:
             if not self.frame_check_enter(fr, fr.frames[name], exits):
                 return False
+            for a in fr.frames[name].auxes:      # an original aux is never active under two frames at once
+                if a in claimed:
+                    self.flags.add("aux_ownership_refused")
+                    return False
+                claimed.add(a)
         return True
 
     def check_start(self, fr):
@@ -352,6 +358,10 @@ class Ref(object):
         if not self.check_enter(fr, enters, exits):
             self.flags.add("transition_refused")
             return None
+        if fr.suspended_by and fr.actives and fr.actives[-1] not in exits:
+            # the main frame of the running conditional aux stays entered: whether the frames entered
+            # below it are suspended is not settled by the documentation (A.9)
+            raise Unsupported("transition keeps the main frame of a running conditional aux")
         self.exit_frames(fr, exits)
         for name in reversed(reexens):
             for a in fr.frames[name].acts["rexit"]:
